@@ -71,3 +71,10 @@ pub use crate::ln::channelmanager::verif_hooks_monupd::monupd_view;
 // ---------------------------------------------------------------------------------------------
 
 pub use crate::crypto::verif_hooks_crypto as crypto;
+
+// ---------------------------------------------------------------------------------------------
+// BOLT-8 transport encryptor (crate-private outside cfg(fuzzing)) and its Noise state
+// ---------------------------------------------------------------------------------------------
+
+pub use crate::ln::peer_channel_encryptor::verif_hooks_c15 as encryptor;
+pub use crate::ln::peer_channel_encryptor::{MessageBuf, NextNoiseStep, PeerChannelEncryptor};
